@@ -14,9 +14,9 @@ ID = "C08"
 TITLE = "The optimizers implement their published algorithms"
 PROPS_FILE = "Props/Properties_C08.v"
 LEVEL = "proof"
-SIZES = {"quick": 1800, "thorough": 20000}
+SIZES = {"quick": 1200, "thorough": 14000}
 PARALLEL = True
-SHARD = 30
+SHARD = 40
 COQ_TIMEOUT = 900
 RULE = ("cases: kind in {strategy (10 strategies x scripted sample/randrange/random draws incl. u == CR ties), degen (1-4 real DE "
         "generations, both solvers, coarse-valued costs so that energy ties occur), nm / nmapi (Nelder-Mead runs: smooth, L1, max, "
@@ -76,12 +76,18 @@ def objective(spec):
         return lambda x: float(sum(1 for xi, ci in zip(x, c) if abs(float(xi) - ci) > q))
     if fam == "const":
         return lambda x: float(q)
+    if fam in ("rquad", "rqround"):          # non-separable (coupled neighbours); rqround = same, rounded to multiples of q
+        def rq(x):
+            d = [float(xi) - ci for xi, ci in zip(x, c)]
+            v = sum(wi * (d[i] + 0.5 * d[(i + 1) % len(d)]) ** 2 for i, wi in enumerate(w)) + 0.25 * sum(di * di for di in d)
+            return float(v) if fam == "rquad" else float(q * round(v / q))
+        return rq
     raise ValueError(fam)
 
 
-SMOOTH = ["quad", "illc", "rosen"]
+SMOOTH = ["quad", "illc", "rosen", "rquad"]
 NONSMOOTH = ["l1", "max"]
-PLATEAU = ["floor", "round", "step", "const"]
+PLATEAU = ["floor", "round", "step", "const", "rqround"]
 
 
 def gen_objective(rng, n, fams=None):
@@ -92,6 +98,7 @@ def gen_objective(rng, n, fams=None):
     else:
         w = [rng.choice([1.0, 2.0, 0.5, 3.0]) for _ in range(n)]
     q = {"floor": rng.choice([1.0, 2.0, 4.0, 16.0]), "round": rng.choice([1.0, 0.25, 4.0, 0.01]),
+         "rqround": rng.choice([1.0, 0.25, 0.5, 0.125]),
          "step": rng.choice([0.5, 0.1, 1.0]), "const": 3.0}.get(fam, 1.0)
     return dict(fam=fam, c=c, w=w, q=q)
 
@@ -510,6 +517,7 @@ X0_VALUES = [0.0, 1.0, -1.0, 0.5, 2.0, -1.5]
 
 
 def _gen_nm(rng, tier, kind=None):
+    from harness.props.c08_ref import ref_fmin
     n = rng.choice([1, 2, 2, 3, 3, 4, 5])
     obj = gen_objective(rng, n)
     zero_ok = rng.random() < 0.25
@@ -520,6 +528,17 @@ def _gen_nm(rng, tier, kind=None):
         if v == 0.0 and not zero_ok:
             v = 0.25
         x0.append(v)
+    kind = kind or rng.choice(["nm", "nm", "nmapi"])
+    xtol = rng.choice([1e-4, 1e-4, 1e-2, 1e-8, 1e-1, 1.0])
+    ftol = rng.choice([1e-4, 1e-4, 1e-2, 1e-8, 1e-1, 1.0])
+    u = rng.random()
+    if u < 0.04:
+        # the DEFAULT limits (200*N): never converge, leave one limit to its default
+        n = rng.choice([1, 1, 1, 2])
+        obj = gen_objective(rng, n, fams=["rosen", "quad", "l1", "rquad"])
+        x0 = [rng.choice([1.5, -1.0, 2.0, 0.5]) for _ in range(n)]
+        mi, mf = rng.choice([(None, 4000), (4000, None), (None, None)])
+        return dict(kind=kind, obj=obj, x0=x0, xtol=1e-300, ftol=1e-300, maxiter=mi, maxfun=mf, stream="default-limits")
     full = rng.random() < (0.12 if tier == "quick" else 0.3) and n <= 3
     if full:
         mi, mf = None, None
@@ -528,9 +547,17 @@ def _gen_nm(rng, tier, kind=None):
         mf = rng.choice([None, 2, n + 1, n + 2, n + 3, 7, 20, 50, 100])
         if mi is None and mf is None:
             mi = rng.choice([40, 80])
-    return dict(kind=kind or rng.choice(["nm", "nm", "nmapi"]), obj=obj, x0=x0,
-                xtol=rng.choice([1e-4, 1e-4, 1e-2, 1e-8, 1e-1, 1.0]), ftol=rng.choice([1e-4, 1e-4, 1e-2, 1e-8, 1e-1, 1.0]),
-                maxiter=mi, maxfun=mf)
+    case = dict(kind=kind, obj=obj, x0=x0, xtol=xtol, ftol=ftol, maxiter=mi, maxfun=mf)
+    if u < 0.26:
+        # boundary of the stop rule: a tolerance EXACTLY equal to the simplex diameter / energy spread reached at some iteration
+        r = ref_fmin(objective(obj), x0, xtol=1e-300, ftol=1e-300, maxiter=rng.choice([3, 6, 12, 25]), maxfun=10 ** 6, zdelt=MYSTIC_ZDELT)
+        sim, fsim = r["sims"][rng.randrange(len(r["sims"]))]
+        dx = float(max(abs(float(a) - float(b)) for row in sim[1:] for a, b in zip(row, sim[0])))
+        df = float(max(abs(float(fsim[0]) - float(e)) for e in fsim[1:]))
+        which = rng.choice(["x", "f", "both"])
+        case.update(xtol=dx if which in ("x", "both") and dx > 0 else 1e6, ftol=df if which in ("f", "both") else 1e6,
+                    maxiter=None if n <= 3 else 60, maxfun=None if n <= 3 else 300, stream="tolerance-tie")
+    return case
 
 
 def _sim_lit(p, e):
@@ -544,9 +571,11 @@ def _terms_nm(case, obs):
     tbl = _tbl(_table([(x, y) for x, y in obs["cost"]]))
     sims = "(%s : list (list (list F * F)))" % lst([_sim_lit(p, e) for p, e in obs["sims"]])
     P = "(mkP NumF %s %s 1%%float 2%%float 0.5%%float 0.5%%float %s %s)" % (flit(0.05), flit(MYSTIC_ZDELT), flit(case["xtol"]), flit(case["ftol"]))
-    return ["nm_ok (let obs := %s in (nm_run NumF %s (lookup %s) (guided NumF obs) %s %s %s, obs)) %s %s %s %s %s" % (
-        sims, P, tbl, _fl(case["x0"]), natlit(mi), natlit(mf),
-        _fl(obs["x"]), flit(obs["fval"]), natlit(obs["iter"]), natlit(obs["funcalls"]), natlit(obs["warnflag"]))]
+    run = "(nm_run NumF %s (lookup %s) (guided NumF obs) %s %s %s)" % (P, tbl, _fl(case["x0"]), natlit(mi), natlit(mf))
+    _DEBUG[:] = ["let obs := %s in option_map (fun r => (r_x NumF r, r_f NumF r, r_iter NumF r, r_calls NumF r, r_warn NumF r, "
+                 "length (r_trace NumF r))) %s" % (sims, run)]
+    return ["nm_ok (let obs := %s in (%s, obs)) %s %s %s %s %s" % (
+        sims, run, _fl(obs["x"]), flit(obs["fval"]), natlit(obs["iter"]), natlit(obs["funcalls"]), natlit(obs["warnflag"]))]
 
 
 # ------------------------------------------------------------------ Powell
@@ -618,6 +647,7 @@ def _oracle_powell(case, obs):
 
 
 def _gen_powell(rng, tier):
+    from harness.props.c08_ref import ref_fmin_powell
     n = rng.choice([1, 2, 2, 3, 3, 4])
     obj = gen_objective(rng, n)
     x0 = []
@@ -631,8 +661,40 @@ def _gen_powell(rng, tier):
     direc = None
     if rng.random() < 0.25:
         direc = [[float(rng.choice([1, 0, 0, -1, 2, 0.5])) if i != j else float(rng.choice([1, 1, 2, -1])) for j in range(n)] for i in range(n)]
-    return dict(kind="powell", obj=obj, x0=x0, xtol=rng.choice([1e-4, 1e-2, 1e-1]), ftol=rng.choice([1e-4, 1e-4, 1e-2, 1e-8, 1e-1]),
+    case = dict(kind="powell", obj=obj, x0=x0, xtol=rng.choice([1e-4, 1e-2, 1e-1]), ftol=rng.choice([1e-4, 1e-4, 1e-2, 1e-8, 1e-1]),
                 maxiter=mi, maxfun=mf, direc=direc)
+    u = rng.random()
+    if u < 0.3:
+        # coarse non-separable valley from grid points: equal decreases along two directions AND a direction replacement
+        n = 2 if rng.random() < 0.7 else rng.choice([3, 4])
+        obj = gen_objective(rng, n, fams=["rqround"])
+        obj["q"] = rng.choice([0.5, 0.5, 1.0, 0.125, 2.0])
+        case.update(obj=obj, x0=[rng.choice([0.0, 1.0, -1.0, 2.0, -2.0, 3.0, 1.5]) for _ in range(n)], direc=None,
+                    maxiter=None, maxfun=None, ftol=rng.choice([1e-4, 1e-8]), stream="bigind-tie")
+    elif u < 0.5:
+        # boundary of the stop rule: ftol with 2(fx-fval) == ftol(|fx|+|fval|)+1e-20 EXACTLY at some sweep >= 2
+        import mystic._scipy060optimize as bundled
+        obj = gen_objective(rng, n, fams=["floor", "step", "rqround", "round"])
+        f = objective(obj)
+        vals = []
+        class _Stop(Exception):
+            pass
+        r = ref_fmin_powell(f, x0, bundled.brent, xtol=case["xtol"], ftol=1e-300, maxiter=6, maxfun=3000, direc=direc, first_test=False)
+        prev = float(f(x0))
+        cands = []
+        hist = [prev] + [v for _, v in r["hist"]]
+        # fx of sweep k is the value after iteration k-1's extrapolation phase; approximate by the previous sweep value and verify below
+        for k in range(2, len(hist)):
+            fx, fv = hist[k - 1], hist[k]
+            if fx > fv and abs(fx) + abs(fv) > 0:
+                t = 2.0 * (fx - fv) / (abs(fx) + abs(fv))
+                if t * (abs(fx) + abs(fv)) + 1e-20 == 2.0 * (fx - fv):
+                    cands.append(t)
+        if cands:
+            case.update(obj=obj, ftol=rng.choice(cands), maxiter=None, maxfun=None, stream="ftol-tie")
+        else:
+            case.update(obj=obj, ftol=rng.choice([1.0, 0.5, 0.4]), stream="ftol-coarse")
+    return case
 
 
 def _terms_powell(case, obs):
@@ -641,15 +703,18 @@ def _terms_powell(case, obs):
     tbl = _tbl(_table([(x, y) for x, y in obs["cost"]]))
     direc = case.get("direc") or [[1.0 if i == j else 0.0 for j in range(n)] for i in range(n)]
     ls = "(%s : list (lsrec NumF))" % lst(["(%s, %s, %s)" % (flit(r["alpha"]), flit(r["fret"]), natlit(r["calls"])) for r in obs["ls"]])
-    return ["pw_ok (powell_run NumF (lookup %s) %s %s false %s %s %s %s %s) %s %s %s %s %s %s %s" % (
-        tbl, flit(case["ftol"]), flit(1e-20), _fl(case["x0"]), _fll(direc), natlit(mi), natlit(mf), ls,
-        _fl(obs["x"]), flit(obs["fval"]), natlit(obs["iter"]), natlit(obs["funcalls"]), natlit(obs["warnflag"]),
+    run = "(powell_run NumF (lookup %s) %s %s false %s %s %s %s %s)" % (
+        tbl, flit(case["ftol"]), flit(1e-20), _fl(case["x0"]), _fll(direc), natlit(mi), natlit(mf), ls)
+    _DEBUG[:] = ["option_map (fun r => (pr_x NumF r, pr_f NumF r, pr_iter NumF r, pr_calls NumF r, pr_warn NumF r, pr_direc NumF r, "
+                 "pr_unused NumF r)) " + run]
+    return ["pw_ok %s %s %s %s %s %s %s %s" % (
+        run, _fl(obs["x"]), flit(obs["fval"]), natlit(obs["iter"]), natlit(obs["funcalls"]), natlit(obs["warnflag"]),
         _fll(obs["direc"]), _fll(obs["allvecs"]))]
 
 # ------------------------------------------------------------------ module interface
 
 def generate(rng, n, tier):
-    kinds = ["strategy"] * 8 + ["degen"] * 3 + ["nm"] * 6 + ["powell"] * 4
+    kinds = ["strategy"] * 7 + ["degen"] * 3 + ["nm"] * 6 + ["powell"] * 6
     for i in range(n):
         k = rng.choice(kinds)
         if k == "strategy":
@@ -754,27 +819,50 @@ def _terms_strategy(case, obs):
         return ["false"]
     D = len(case["pop"][0])
     us = lg["us"] + [2.0] * (D + 1)     # the scripted stream continues with values that never mutate
-    return ["ovec_eq (trial NumF %s %s %s %s %s %s %s %s %s) %s" % (
+    expr = "(trial NumF %s %s %s %s %s %s %s %s %s)" % (
         case["name"], _fll(case["pop"]), _fl(case["best"]), natlit(case["cand"]), flit(case["F"]), flit(case["CR"]),
-        _nl(lg["rs"]), natlit(lg["n"]), _fl(us), _fl(obs["trial"]))]
+        _nl(lg["rs"]), natlit(lg["n"]), _fl(us))
+    _DEBUG[:] = [expr]
+    return ["ovec_eq %s %s" % (expr, _fl(obs["trial"]))]
 
 
 def _terms_degen(case, obs):
     T = []
     snaps, calls = obs["snaps"], obs["calls"]
-    tbl = _tbl(_table([(x, y) for x, y in obs["cost"]]))
     fn = "de1_gen" if case["solver"] == 1 else "de2_gen"
+    dbg = []
     for g in range(1, len(snaps)):
         a, b = snaps[g - 1], snaps[g]
+        tbl = _tbl(_table([(x, y) for x, y in obs["cost"][a["ncost"]:b["ncost"]]]))
         cs = calls[a["ncalls"]:b["ncalls"]]
         if any(c["rs"] is None or c["n"] is None for c in cs):
-            T.append("false"); continue
+            T.append("false"); dbg.append("false"); continue
         draws = "(%s : list (draw NumF))" % lst(["(%s, %s, %s)" % (_nl(c["rs"]), natlit(c["n"]), _fl(c["us"] + [2.0])) for c in cs])
         st = "(mkDE NumF %s (%s, %s))" % (_members(a["pop"], a["popE"]), _fl(a["best"]), flit(a["bestE"]))
-        T.append("de_eq (%s NumF (lookup %s) %s %s %s %s %s) %s (%s, %s)" % (
-            fn, tbl, case["name"], flit(case["F"]), flit(case["CR"]), draws, st,
-            _members(b["pop"], b["popE"]), _fl(b["best"]), flit(b["bestE"])))
+        expr = "(%s NumF (lookup %s) %s %s %s %s %s)" % (fn, tbl, case["name"], flit(case["F"]), flit(case["CR"]), draws, st)
+        dbg.append("option_map (fun s => (de_pop NumF s, de_best NumF s)) " + expr)
+        T.append("de_eq %s %s (%s, %s)" % (expr, _members(b["pop"], b["popE"]), _fl(b["best"]), flit(b["bestE"])))
+    _DEBUG[:] = dbg
     return T
+
+
+_DEBUG = []      # Gallina expressions whose value is the MODEL's answer for the terms of the last coq_terms call
+
+
+def coq_debug(case, obs, k):
+    coq_terms(case, obs)
+    return _DEBUG[k] if k < len(_DEBUG) else "tt"
+
+
+def widen(rng, cases, tier):
+    """more cases of the kinds (and streams) that disagreed"""
+    out = []
+    for c in cases:
+        for _ in range(120):
+            k = c["kind"]
+            out.append(_gen_strategy(rng) if k == "strategy" else _gen_degen(rng) if k == "degen"
+                       else _gen_powell(rng, tier) if k == "powell" else _gen_nm(rng, tier, kind=k))
+    return out
 
 
 def coq_terms(case, obs):
@@ -795,6 +883,8 @@ def coq_terms(case, obs):
 def classify(case, obs):
     k = case["kind"]
     tags = ["kind:" + k]
+    if case.get("stream"):
+        tags.append("stream:" + case["stream"])
     nontrivial = False
     if "__exception__" in obs:
         return json.dumps(case, sort_keys=True), False, tags + ["driver-exception"]
